@@ -112,6 +112,8 @@ type World struct {
 	Log      zerolog.Logger
 	ro       *stdsql.DB
 	WrapRepo func(*repository.Repositories) // optional decorator installation (fault injection, yields)
+	// AfterNewServices runs between service.NewServices and route registration (replace a service's collaborator).
+	AfterNewServices func(w *World)
 	// AfterServices lets an engine add notification channels etc. after every (re)start.
 	AfterServices func(w *World)
 	Generation    int
@@ -185,6 +187,9 @@ func (w *World) OpenWith(db *sqlx.DB) {
 		Logger:       &w.Log,
 		Config:       w.Cfg,
 	})
+	if w.AfterNewServices != nil {
+		w.AfterNewServices(w)
+	}
 	srv := httpserver.NewHTTPServer(w.Cfg.HTTP, &w.Log)
 	srv.ApplyConfiguration(endpoints.SetupRoutes(w.Svc, w.Cfg.HTTP))
 	srv.ApplyConfiguration(func(e *gin.Engine) { w.Gin = e })
